@@ -2,6 +2,7 @@ package sim
 
 import (
 	"context"
+	"os"
 	"os/exec"
 	"strings"
 	"time"
@@ -9,8 +10,10 @@ import (
 
 // death describes a worker that did not survive a run.
 type death struct {
-	kind string // "hang" or "crash:<normalised fatal error>"
-	idx  int
+	kind   string // "hang", "deadlock" or "crash:<normalised fatal error>"
+	idx    int
+	worker int // the worker executed runs worker, worker+stride, ... before idx
+	stride int
 }
 
 func isDeathSig(sig string) bool {
@@ -19,10 +22,12 @@ func isDeathSig(sig string) bool {
 
 // execOutcome executes a script file in a child process (`tabsim exec-one`)
 // and classifies what happened: "ok", "hang", or "crash:<...>".
-func execOutcome(exe, path string, timeout time.Duration) string {
+func execOutcome(exe, path string, timeout time.Duration, env ...string) string {
 	ctx, cancel := context.WithTimeout(context.Background(), timeout)
 	defer cancel()
-	out, err := exec.CommandContext(ctx, exe, "exec-one", path).CombinedOutput()
+	cmd := exec.CommandContext(ctx, exe, "exec-one", path)
+	cmd.Env = append(os.Environ(), env...)
+	out, err := cmd.CombinedOutput()
 	if ctx.Err() != nil {
 		return "hang"
 	}
@@ -31,6 +36,11 @@ func execOutcome(exe, path string, timeout time.Duration) string {
 	}
 	if ee, ok := err.(*exec.ExitError); ok && ee.ExitCode() == ExitDeadlock {
 		return "deadlock"
+	}
+	if strings.Contains(string(out), "fatal error: all goroutines are asleep - deadlock!") {
+		// the same hang, seen by a process that has no watchdog goroutine: the Go
+		// runtime notices that nothing can ever run again
+		return "hang"
 	}
 	if i := strings.Index(string(out), "fatal error: "); i >= 0 {
 		line := string(out)[i+len("fatal error: "):]
@@ -44,14 +54,15 @@ func execOutcome(exe, path string, timeout time.Duration) string {
 
 // minimizeDeath confirms that the script alone kills a fresh process in the
 // recorded way and shrinks it with one process per candidate.
-func minimizeDeath(exe string, s *Script, sig string, tmp string) *Script {
+func minimizeDeath(exe string, s *Script, sig string, tmp string, hangTimeout time.Duration) *Script {
 	timeout := hangTimeout
+	var env []string
 	test := func(c *Script) bool {
 		cc := c.Clone()
 		if cc.WriteFile(tmp) != nil {
 			return false
 		}
-		return s.Property+"/"+execOutcome(exe, tmp, timeout) == sig
+		return s.Property+"/"+execOutcome(exe, tmp, timeout, env...) == sig
 	}
 	// confirmation gets three times the watchdog's limit: a run that is merely
 	// slow must end up as harness trouble, never as a reported hang
@@ -59,14 +70,60 @@ func minimizeDeath(exe string, s *Script, sig string, tmp string) *Script {
 	if !test(s) {
 		return nil
 	}
-	timeout = hangTimeout
+	// candidates: a legitimate run of a smaller script is far below a third of
+	// the limit; every candidate that still hangs costs that long, so few are tried
+	budget := 60
 	if strings.HasSuffix(sig, "/hang") {
-		timeout = 60 * time.Second // candidates: a legitimate run of a smaller script is far below this
+		timeout = hangTimeout / 3
+		budget = 10
 	}
-	min := MinimizeWith(s, 60, test)
+	if strings.HasSuffix(sig, "/deadlock") {
+		env = []string{"TABSIM_DEADLOCK_S=5"}
+		budget = 14
+	}
+	min := MinimizeWith(s, budget, test)
 	timeout = hangTimeout
+	env = nil
 	if !test(min) {
 		return s.Clone()
 	}
 	return min
+}
+
+// deathWithPrelude: the script does not kill a fresh process alone; does it
+// after the given earlier runs, executed in the same fresh process?  The
+// prelude is then shortened from the front (halving) while the outcome persists.
+func deathWithPrelude(exe string, s *Script, sig string, tmp string, hangTimeout time.Duration, pre *Prelude) *Script {
+	if len(pre.Indices) == 0 {
+		return nil
+	}
+	var env []string
+	test := func(c *Script, timeout time.Duration) bool {
+		if c.Clone().WriteFile(tmp) != nil {
+			return false
+		}
+		return s.Property+"/"+execOutcome(exe, tmp, timeout, env...) == sig
+	}
+	c := s.Clone()
+	c.Prelude = pre
+	if !test(c, 3*hangTimeout) {
+		return nil
+	}
+	if strings.HasSuffix(sig, "/deadlock") {
+		env = []string{"TABSIM_DEADLOCK_S=5"}
+	}
+	for tries := 0; len(c.Prelude.Indices) > 1 && tries < 7; tries++ {
+		half := c.Clone()
+		half.Prelude.Indices = half.Prelude.Indices[len(half.Prelude.Indices)/2:]
+		if !test(half, hangTimeout/3+time.Duration(len(half.Prelude.Indices))*50*time.Millisecond) {
+			break
+		}
+		c = half
+	}
+	env = nil
+	if !test(c, 3*hangTimeout) {
+		c = s.Clone()
+		c.Prelude = pre
+	}
+	return c
 }
